@@ -18,8 +18,12 @@ CLAIMS = {
          "bounded by string/text length and alphabet; regexp bodies outside (native regexp needs concrete text)"),
 }
 
-NA = [
-]
+NA_REASONS = {
+ "C12": "numerical correctness of transcendental/iterative float code (Lgamma, Erfc, continued fractions, bisection, Welford): SMT-FP has no theory for the elementary functions and the available solvers time out beyond two constant-operand float operations (DESIGN.md section 5); answered not-applicable rather than switching technique",
+ "C20": "all-or-nothing uploads under faults and unique upload IDs under concurrency live in database/sql + sqlite3 (cgo) transactions, a file store and an HTTP multipart stream, quantified over fault positions and goroutine interleavings: none of these can be executed symbolically here (DESIGN.md section 5)",
+}
+NA_DEFAULT = "no check registered yet: harness for this property is still under construction (see DESIGN.md section 4 for the plan)"
+
 
 def main():
     checks = []
@@ -41,6 +45,8 @@ def main():
             "level_note": note + "; trusted base: the gosymex engine (path witnesses are re-run natively on every run and every counterexample is replayed natively before it is reported), go/ssa, z3 5.1.0/4.8.12, cvc5 1.0",
             "technique": "bounded symbolic execution of go/ssa with SMT (z3/cvc5); native replay of counterexamples",
         })
+    allids = [json.loads(l)["id"] for l in open('/verif/properties.jsonl')]
+    NA = [{"property_id": i, "reason": NA_REASONS.get(i, NA_DEFAULT)} for i in allids if i not in served]
     m = {
         "version": 1,
         "setup_cmd": "cd /verif/engine && GOFLAGS=-mod=mod GOPROXY=off GOSUMDB=off GOTOOLCHAIN=local go build -o /verif/bin/gosymex ./cmd/gosymex",
